@@ -347,11 +347,15 @@ class MempoolMachine:
         try:
             await self.server.quiesce()
         except NoConvergence as e:
+            if self.violation:
+                raise Violation(*self.violation)
             raise Violation(f'mempool tracker does not synchronise: {e}', 'no_convergence')
         loop = asyncio.get_event_loop()
         end = loop.time() + 60
         while self.info['stable_refreshes'] == before and loop.time() < end:
             await asyncio.sleep(1)
+        if self.violation:
+            raise Violation(*self.violation)
         if self.info['stable_refreshes'] == before:
             raise Violation('no stable refresh was handed over within 60 s of a quiet daemon',
                             'no_stable_refresh')
